@@ -168,6 +168,68 @@ def const_local_defs(unit, fn):
     return defs
 
 
+def return_term(unit, fn, subst=True):
+    """the term a function returns, with `if (c) return a; return b;` (and if / else with two returns) read as `c ? a : b`
+    and a negated condition folded into the order of the branches: one view for both spellings. None if the function has
+    another shape."""
+    from . import facts as F
+    nf = (lambda n: snorm(unit, fn, n)) if subst else (lambda n: norm(unit, n))
+    body = fn.get("body") or {}
+    stmts = [s_ for s_ in (body.get("ch", []) if body.get("k") == "compound" else [body]) if s_.get("k") not in ("decl", "null", "expr:NullStmt")]
+    rets = [r for r in F.walk(body, into_lambdas=False) if r.get("k") == "return"]
+
+    def only_return(st):
+        if st is None:
+            return None
+        if st.get("k") == "return":
+            return st
+        if st.get("k") == "compound" and len(st.get("ch", [])) == 1:
+            return only_return(st["ch"][0])
+        return None
+
+    def fold(c, a, b):
+        if isinstance(c, tuple) and len(c) == 3 and c[0] == "u" and c[1] == "!":
+            return ("cond", c[2], b, a)
+        return ("cond", c, a, b)
+    if len(rets) == 1 and rets[0].get("e") is not None:
+        return nf(rets[0]["e"])
+    if len(rets) == 2 and stmts:
+        last = stmts[-1]
+        if last.get("k") == "return" and len(stmts) >= 2 and stmts[-2].get("k") == "if" and stmts[-2].get("else") is None:
+            r1 = only_return(stmts[-2].get("then"))
+            if r1 is not None and r1.get("e") is not None and last.get("e") is not None:
+                return fold(nf(stmts[-2]["cond"]), nf(r1["e"]), nf(last["e"]))
+        if last.get("k") == "if" and last.get("else") is not None:
+            r1, r2 = only_return(last.get("then")), only_return(last.get("else"))
+            if r1 is not None and r2 is not None and r1.get("e") is not None and r2.get("e") is not None:
+                return fold(nf(last["cond"]), nf(r1["e"]), nf(r2["e"]))
+    return None
+
+
+def walk_through_locals(unit, fn, node, depth=0):
+    """every node of `node` and, for each never-rewritten local it refers to, of that local's initialiser (transitively):
+    lets a structural rule see `sizeof(T)` whether it is written in place or first given a name"""
+    from . import facts as F
+    defs = const_local_defs(unit, fn)
+    inits = fn.get("_cinit_nodes")
+    if inits is None:
+        inits = {}
+        for v in F.walk(fn.get("body"), into_lambdas=True):
+            if v.get("k") == "var" and v.get("init") is not None and v.get("id") in defs:
+                inits[v["id"]] = v["init"]
+        fn["_cinit_nodes"] = inits
+    seen = set()
+
+    def go(n, d):
+        for m in F.walk(n):
+            yield m
+            if m.get("k") == "ref" and m.get("id") in inits and m["id"] not in seen and d < 4:
+                seen.add(m["id"])
+                for x in go(inits[m["id"]], d + 1):
+                    yield x
+    return go(node, depth)
+
+
 def snorm(unit, fn, n):
     """norm() with the function's never-rewritten locals replaced by their initialisers"""
     return norm(unit, n, const_local_defs(unit, fn))
